@@ -117,6 +117,11 @@ class FixedWaveform(Waveform):
             padding = samples-waveform_samples
             pad = np.zeros(padding)
             waveform = np.concatenate((waveform, pad), axis=-1)
+        else:
+            # Basic slicing returns a view of the stored waveform. Return a
+            # copy so that in-place operations on the chunk (by the caller or
+            # by GateFactory.next) cannot alter the stored waveform.
+            waveform = waveform.copy()
         self.offset += samples
         return waveform
 
